@@ -121,6 +121,11 @@ check("C24", "property test: injected undefined name with a generator-known text
       "Columns counted in characters; diagnostics without column information are only line-checked.",
       "DESIGN.md §3 C24")
 
+check("C34", "property test against a reference evaluator of inferred types: every top-level binding's inferred type evaluated on its run-time value",
+      "Programs of 2-10 top-level bindings (literals, arithmetic, comparisons, list literals, push, concatenation, len, constant indexing, two user functions) are checked in-process; each binding's inferred type (HIR definition signature, the same the `typecheck` mode prints) is evaluated by a membership evaluator (classes, Nat, singleton/enum/interval refinements, List(T, N) element type and length) on the value printed by the compiled program under CPython 3.11; an accepted program must not raise IndexError.",
+      "Type shapes the evaluator does not model (e.g. singleton types of list values) are counted, not judged; language-server hover is not queried (it reads the same HIR field); map over lists is not generated.",
+      "DESIGN.md §3 C34")
+
 check("C07", "property test / fuzzing of the whole compiler pipeline in crash-isolated workers (generated well-typed and ill-typed programs, mutated corpus)",
       "Fragment programs, the same with 1-3 positions replaced by syntactically valid but ill-typed expressions, and corpus programs cut/spliced at random points (kept if they still parse) are compiled in-process at generated opt_level 0-3 and target 3.7-3.11; a panic, an abort of the worker process (confirmed in a fresh process), a hang or an internal-compiler-error diagnostic is a violation. One signature per panic site.",
       "The recorded crash families (recursion-limit panics in compare.rs / unify.rs, a stack overflow, an unserialisable Ellipsis constant, lower_class_def) are known findings keyed by panic site; the abort signature `abort:signal 6` is coarse (any stack overflow).",
@@ -159,7 +164,6 @@ check("C15", "round-trip property test (constants through the target interpreter
 NOT_APPLICABLE = {
     "C29": "not built in the time available (nothing is claimed): the technique applies - edit histories against an in-process els server compared with a freshly started one, as described in DESIGN.md section C29 - but the publishDiagnostics path runs on background threads of the server and needs a quiescence protocol that was not finished",
     "C30": "not built in the time available (nothing is claimed): the technique applies - rename requests on generated programs, the WorkspaceEdit applied and the result compiled and run, DESIGN.md section C30",
-    "C34": "not built in the time available (nothing is claimed): the technique applies - reported types of top-level bindings parsed and checked against run-time values, DESIGN.md section C34",
 }
 
 def main():
